@@ -189,6 +189,10 @@ Inductive expr :=
 
 Inductive stmt :=
 | SInsert (t : nat) (rows : list row)
+| SInsertSelect (dst src : nat) (simple : bool) (sel : list row)
+    (* INSERT INTO dst SELECT * FROM src [WHERE ..]; [simple] = no WHERE / DISTINCT / LIMIT ...;
+       [sel] = the rows the SELECT returns (its row order is the query executor's business; used on
+       the non-bulk path only) *)
 | SUpdate (t : nat) (asg : list (nat * expr)) (w : option pred)
 | SDelete (t : nat) (w : option pred)
 | STruncate (t : nat) (cascade : bool)
@@ -222,6 +226,10 @@ Inductive event :=
 | EvAddFkUnchecked    (* ALTER TABLE ADD FOREIGN KEY over rows that violate it *)
 | EvAddFkCycle        (* ALTER TABLE ADD FOREIGN KEY closing a cycle through several tables: refused, but only
                          after the table was removed from the catalog *)
+| EvBulkPkCollision   (* INSERT..SELECT bulk transfer met a primary-key collision: the engine's answer depends
+                         on the append-mode tracker (C10 class append-mode-bulk-transfer-duplicate-pk) *)
+| EvBulkNullKey       (* bulk transfer copied a row with a NULL primary-key value (the path does not re-check
+                         NOT NULL; needs a NULL in a NOT NULL source column, never observed) *)
 | EvNonStandardFk.    (* the schema holds a FOREIGN KEY that does not reference the parent's PRIMARY KEY
                          column-for-column, or whose columns are not declared in column order *)
 
@@ -231,7 +239,8 @@ Definition event_eqb (a b : event) : bool :=
   | EvPartial, EvPartial | EvOverwrite, EvOverwrite | EvSideEffect, EvSideEffect
   | EvSelfRefPkUpdate, EvSelfRefPkUpdate | EvPkCollision, EvPkCollision
   | EvDropReferenced, EvDropReferenced | EvAddFkUnchecked, EvAddFkUnchecked
-  | EvNonStandardFk, EvNonStandardFk | EvAddFkCycle, EvAddFkCycle => true
+  | EvNonStandardFk, EvNonStandardFk | EvAddFkCycle, EvAddFkCycle
+  | EvBulkPkCollision, EvBulkPkCollision | EvBulkNullKey, EvBulkNullKey => true
   | _, _ => false
   end.
 
@@ -538,6 +547,71 @@ Definition exec_insert (d : db) (t : nat) (rs0 : list row) : world * result :=
       match insert_validate d tb [] rs with
       | Some e => ((d, []), RErr e)
       | None => ((set_rows d t (t_rows tb ++ rs), []), ROk (length rs))
+      end
+  end.
+
+(* ------------------------------------------------------------------------------------ *)
+(** * INSERT ... SELECT: insert/execution.rs, insert/bulk_transfer.rs, insert/foreign_keys.rs *)
+
+(** check_schema_compatibility (all columns INTEGER): same column count, and a NOT NULL
+    destination column needs a NOT NULL source column *)
+Definition bulk_compatible (dst src : table) : bool :=
+  Nat.eqb (ncols dst) (ncols src)
+  && forallb (fun c => col_nullable dst c || negb (col_nullable src c)) (seq 0 (ncols dst)).
+
+(** execute_bulk_transfer: the source rows (storage order) are validated and inserted ONE BY ONE
+    against the database as it is at that moment -- primary key (enforce_primary_key_constraint),
+    foreign keys in DECLARATION order (validate_foreign_key_constraints); no arity / NOT NULL /
+    DEFAULT handling; an error leaves the earlier rows inserted *)
+Fixpoint bulk_loop (d : db) (dst : nat) (rows : list row) (seen : list key) (n : nat) (ev : list event)
+  : world * result :=
+  match rows with
+  | [] => ((d, ev), ROk n)
+  | r :: rest =>
+      match get_table d dst with
+      | None => ((d, ev), RErr ENotFound)
+      | Some tb =>
+          let pkv := match t_pk tb with Some pk => Some (proj pk r) | None => None end in
+          let dup := match pkv, t_pk tb with
+                     | Some k, Some pk => key_mem k seen || key_mem k (map (proj pk) (t_rows tb))
+                     | _, _ => false
+                     end in
+          if dup then ((d, EvBulkPkCollision :: ev), RErr EConstraint)
+          else match fk_validate proj d (t_fks tb) r with
+               | Some e => ((d, ev), RErr e)
+               | None =>
+                   let nullkey := match pkv with Some k => has_null k | None => false end in
+                   let ev' := if nullkey then EvBulkNullKey :: ev else ev in
+                   let seen' := match pkv with Some k => k :: seen | None => seen end in
+                   bulk_loop (set_rows d dst (t_rows tb ++ [r])) dst rest seen' (S n) ev'
+               end
+      end
+  end.
+
+(** the non-bulk path: the SELECT is executed (unknown source table = error), its column count
+    is compared with the target's (also when it returns no row), then its rows go through the
+    INSERT VALUES validation *)
+Definition insert_selected (d : db) (dst src : nat) (dt : table) (sel : list row) : world * result :=
+  match get_table d src with
+  | None => ((d, []), RErr ENotFound)
+  | Some st =>
+      if Nat.eqb (ncols st) (ncols dt) then exec_insert d dst sel else ((d, []), RErr EOther)
+  end.
+
+Definition exec_insert_select (d : db) (dst src : nat) (simple : bool) (sel : list row) : world * result :=
+  match get_table d dst with
+  | None => ((d, []), RErr ENotFound)
+  | Some dt =>
+      match (if simple && negb (Nat.eqb src dst) then get_table d src else None) with
+      | Some st =>
+          if bulk_compatible dt st then
+            (let '(w, r) := bulk_loop d dst (t_rows st) [] 0 [] in
+             match r with
+             | ROk _ => (w, r)
+             | _ => (partial_mark d w, r)
+             end)
+          else insert_selected d dst src dt sel
+      | None => insert_selected d dst src dt sel
       end
   end.
 
@@ -927,6 +1001,7 @@ Definition schema_standard (d : db) : bool :=
 Definition step_fuel (fuel : nat) (ord : list nat) (d : db) (s : stmt) : world * result :=
   match s with
   | SInsert t rs => exec_insert d t rs
+  | SInsertSelect dst src simple sel => exec_insert_select d dst src simple sel
   | SUpdate t asg wh => exec_update ord d t asg wh
   | SDelete t wh => exec_delete fuel ord d t wh
   | STruncate t c => exec_truncate ord d t c
